@@ -1,6 +1,8 @@
 /* C07: canvas operations against the ghost-pixel contracts.  Function text: x_pixel.c, x_canvas.c (extracted from src/Image.cc,
  * src/Image.hh on this run); contracts: contracts/C07_image.h. */
 #include "contracts/C07_image.h"
+#include "x_color.c"
+#include "stubs/C07_pixel_model.h"
 int verif_exc;
 const Image *g_dimg, *g_simg, *g_mimg;
 ssize_t g_dw, g_dh, g_sw, g_sh, g_mw, g_mh;
@@ -13,7 +15,7 @@ bool g_tup_ok;
 uint64_t g_t_al, g_t_cr, g_t_cg, g_t_cb, g_t_ca, g_t_dr, g_t_dg, g_t_db, g_t_da, g_t_mx, g_t_e1, g_t_e2, g_bo_r, g_bo_g, g_bo_b, g_bo_a, g_bo_e;
 uint32_t g_cb_d, g_cb_s, g_cb_out;
 uint64_t g_ci_dr, g_ci_dg, g_ci_db, g_ci_da, g_ci_sr, g_ci_sg, g_ci_sb, g_ci_sa, g_co_r, g_co_g, g_co_b, g_co_a;
-#include "x_pixel.c"
+#include "x_pixel_c.c"
 #include "x_canvas.c"
 
 /* globals are zero-initialised, not nondet: every ghost gets its value from a nondet local */
@@ -36,6 +38,13 @@ uint64_t g_ci_dr, g_ci_dg, g_ci_db, g_ci_da, g_ci_sr, g_ci_sg, g_ci_sb, g_ci_sa,
 void h_read_pixel_c(void) { Image img; IN_D IN_S IN_M ssize_t in_x, in_y; int in_role; g_dimg = in_role == 0 ? &img : 0; g_simg = in_role == 1 ? &img : 0;
   g_mimg = in_role == 2 ? &img : 0; verif_exc = 0; Image_read_pixel_c(&img, in_x, in_y); VERIF_REACH(); }
 void h_write_pixel_c(void) { Image img; IN_D ssize_t in_x, in_y; uint32_t in_c; g_dimg = &img; verif_exc = 0; Image_write_pixel_c(&img, in_x, in_y, in_c); VERIF_REACH(); }
+
+/* ---- the ghost-pixel models satisfy the loop-level contracts ---- */
+void h_model_read_pixel(void) { Image img; IN_D IN_S IN_M ssize_t in_x, in_y; int in_role, in_ptrs; uint64_t r, g, b, a; g_dimg = in_role == 0 ? &img : 0;
+  g_simg = in_role == 1 ? &img : 0; g_mimg = in_role == 2 ? &img : 0; verif_exc = 0;
+  Image_read_pixel(&img, in_x, in_y, (in_ptrs & 1) ? &r : 0, (in_ptrs & 2) ? &g : 0, (in_ptrs & 4) ? &b : 0, (in_ptrs & 8) ? &a : 0); VERIF_REACH(); }
+void h_model_write_pixel(void) { Image img; IN_D ssize_t in_x, in_y; uint64_t in_r, in_g, in_b, in_a; g_dimg = &img; verif_exc = 0;
+  Image_write_pixel(&img, in_x, in_y, in_r, in_g, in_b, in_a); VERIF_REACH(); }
 
 /* ---- clamp ---- */
 void h_clamp(void) { const Image *d, *s; ssize_t *x, *y, *w, *h, *sx, *sy; GH(ssize_t, dx) GH(ssize_t, dy) clamp_blit_dimensions(d, s, x, y, w, h, sx, sy); VERIF_REACH(); }
